@@ -144,6 +144,9 @@ def _defaults(fn):
     return out
 
 
+EXTRA_ROOTS = {}     # name -> long-lived object of the caller (a reused ScenarioRunnerNoTrade): its attributes are cells too
+
+
 def snapshot():
     """{cell name: fingerprint} over module globals, class attributes and function defaults of every loaded src.* module"""
     was = REC.on
@@ -182,6 +185,9 @@ def snapshot():
                     if getattr(type(val), "__module__", "").split(".")[0] in ("typing",):
                         continue
                     snap["%s:%s" % (mname, name)] = fingerprint(val)
+        for rname, obj in EXTRA_ROOTS.items():
+            for an, av in list(vars(obj).items()):
+                snap["instance:%s(%s).%s" % (rname, type(obj).__name__, an)] = fingerprint(av)
     finally:
         REC.on = was
     return snap
